@@ -115,7 +115,8 @@ RULE = (
     "integrated at the absolute epoch S+T; non-trivial when T > 0 and the measured effect of counting T twice exceeds "
     "100 tolerances. Twin family: a real truth-only Scenario flies satellite A from the start; at T a target (dict "
     "and AgentConfig forms of Scenario.addTarget) and a space sensor (addSensor) are added with exactly A's state, "
-    "and in a second run by target_addition / sensor_addition events; every twin's state at every later step, and "
+    "and in a second run (configurations without SRP: the events do not carry the platform's mass / area) by "
+    "target_addition / sensor_addition events; every twin's state at every later step, and "
     "one step of its truth and filter dynamics objects, must be bit-identical to A's; non-trivial when T > 0. "
     "Distinct by construction (lattice points); VERIF_SEED rotates RAAN/argument of perigee/third anomaly, the SP "
     "start day, the batch column assignment and the orbit assignment of the epoch-split / twin items."
@@ -381,7 +382,7 @@ def bounds(tier, seed):
         },
         "epoch_twin": {
             "added_after_steps": TWIN_ADD_STEPS, "step_s": TWIN_DT, "steps_after": TWIN_AFTER,
-            "paths": ["addTarget(dict)", "addTarget(AgentConfig)", "addSensor(dict)", "target_addition event", "sensor_addition event",
+            "paths": ["addTarget(dict)", "addTarget(AgentConfig)", "addSensor(dict)", "target_addition event (no SRP)", "sensor_addition event (no SRP)",
                       "truth dynamics object", "filter dynamics object"],
             "configs_integrators": sorted({(it[1], it[2]) for it in its if it[0] == "epoch_twin"}),
             "items": sum(1 for it in its if it[0] == "epoch_twin"),
@@ -935,8 +936,10 @@ TWIN_A, TWIN_B, TWIN_B2, TWIN_S, TWIN_GROUND, TWIN_ENGINE = 40001, 40002, 40003,
 
 def _twin_config(kind, method, start, n_steps, x0, events):
     deg, order, bodies, srp, gr = SP_CFG[kind]
+    sat_a = scen.target_eci(TWIN_A, x0[:3], x0[3:])
+    sat_a["platform"] = dict(ES_PLATFORM)
     return scen.config(
-        start, n_steps, [scen.engine(TWIN_ENGINE, [scen.target_eci(TWIN_A, x0[:3], x0[3:])], [scen.ground_sensor(TWIN_GROUND, 10.0, 20.0)])],
+        start, n_steps, [scen.engine(TWIN_ENGINE, [sat_a], [scen.ground_sensor(TWIN_GROUND, 10.0, 20.0)])],
         physics=int(TWIN_DT), truth_only=True, model="special_perturbations", integrator=method, events=events, seed=11,
         geopotential={"model": ES_MODEL, "degree": deg, "order": order},
         perturbations={"third_bodies": list(bodies), "solar_radiation_pressure": srp, "general_relativity": gr},
@@ -965,7 +968,7 @@ def _run_epoch_twin(res, item):
     def same(path, step, got, want):
         got, want = np.asarray(got, dtype=float), np.asarray(want, dtype=float)
         ok = got.shape == want.shape and bool(np.array_equal(got, want))
-        err = fw.maxabs(got[:3], want[:3]) if got.shape == want.shape == (6,) else math.inf
+        err = fw.maxabs(got[:3], want[:3]) if got.shape == want.shape and got.ndim == 1 and got.size >= 3 else math.inf
         res.case("epoch_twin", base(path=path, steps_after_addition=step), ok, nontrivial=nontriv, signature=f"{sig}/{path}",
                  observed={"pos_diff_km": err, "state": got}, expected={"pos_diff_km": 0.0, "state": want},
                  outcome="identical" if ok else "differs", item=item)
@@ -976,7 +979,11 @@ def _run_epoch_twin(res, item):
 
     def twin_spec(ident, state, sensor):
         pos, vel = [float(c) for c in state[:3]], [float(c) for c in state[3:]]
-        return scen.space_sensor(ident, pos, vel) if sensor else scen.target_eci(ident, pos, vel)
+        spec = scen.space_sensor(ident, pos, vel) if sensor else scen.target_eci(ident, pos, vel)
+        # explicit mass / cross-section / reflectivity: the configuration defaults depend on the altitude regime of the
+        # state the agent is configured with, and a twin configured later on the same orbit may sit in another regime
+        spec["platform"] = dict(ES_PLATFORM)
+        return spec
 
     # ---- run 1: the public addTarget / addSensor calls at clock time T
     path = "added_by_call"
@@ -1012,11 +1019,16 @@ def _run_epoch_twin(res, item):
             same("added_by_call/addTarget_AgentConfig", k, app.target_agents[TWIN_B2].eci_state, a_now)
             same("added_by_call/addSensor", k, app.sensor_agents[TWIN_S].eci_state, a_now)
             # the truth record the agent hands to the database
-            same("added_by_call/ephemeris_record", k, app.target_agents[TWIN_B].getCurrentEphemeris().eci, app.target_agents[TWIN_A].getCurrentEphemeris().eci)
+            rec_a, rec_b = app.target_agents[TWIN_A].getCurrentEphemeris(), app.target_agents[TWIN_B].getCurrentEphemeris()
+            same("added_by_call/ephemeris_record", k, [*rec_b.eci, float(rec_b.julian_date)], [*rec_a.eci, float(rec_a.julian_date)])
     except Exception as exc:  # noqa: BLE001 - an exception on a lattice point is a reported outcome
         fail(path, exc)
         return {}
-    # ---- run 2: the same additions made by scenario events (start_time = end of the step T -> T+dt, see ASSUMPTIONS)
+    # ---- run 2: the same additions made by scenario events (start_time = end of the step T -> T+dt, see ASSUMPTIONS).
+    # The addition events carry the state only, not mass / cross-section / reflectivity (the added agent gets the defaults
+    # of its altitude regime): under SRP an event-added twin is a different spacecraft, so SRP configurations stop here.
+    if SP_CFG[kind][3]:
+        return {}
     path = "added_by_event"
     try:
         when = scen.iso(start + timedelta(seconds=T + dt))
